@@ -48,6 +48,7 @@ func Run(conf core.Config) *core.Result {
 	res := core.NewResult("FACT")
 	res.Rules = append(res.Rules,
 		"FACT.normorder: a lapack64.Lan* norm of storage M that is computed in the same function as an in-place lapack64 factorization (Getrf/Potrf/Pbtrf/Pstrf) of M is not reachable from that factorization",
+		"FACT.condafter: in a function that factorizes storage in place and estimates the condition number (lapack64 *con or the receiver's updateCond), every path to the estimate passes the factorization",
 		"FACT.condunit: the reciprocal condition number returned by a lapack64 *con estimator reaches a comparison with ConditionTolerance, a Condition(...) conversion or a cond field only through an odd number of inversions 1/x",
 		"FACT.state: a method of a mat factorization type that takes another value of its own type and writes the receiver assigns every field of the type (directly or through a receiver method it calls)")
 	res.Configs = append(res.Configs, conf.String())
@@ -60,6 +61,7 @@ func Run(conf core.Config) *core.Result {
 	normOrder(pkg, res)
 	state(pkg, res)
 	condUnit(pkg, res)
+	condAfter(pkg, res)
 	return res
 }
 
